@@ -46,6 +46,10 @@ class Builder:
         self.allow_int = allow_int
         self.labels = set()
         self.use_count = {}
+        self.allow_const_flag = False
+        self.allow_const_view = False
+        self.views_tensors_only = False
+        self.recency_bias = True
 
     # ---- low-level emit
     def _emit(self, st_):
@@ -186,6 +190,9 @@ class Builder:
             return None
         # bias toward recent handles and toward re-use: draw two, take the later w.p. 1/2
         i = self.draw(st.integers(0, len(cands) - 1))
+        if len(cands) > 2 and self.recency_bias:
+            j = self.draw(st.integers(0, len(cands) - 1))
+            i = max(i, j)
         return cands[i]
 
 
@@ -260,6 +267,8 @@ def draw_adv_index(draw, shape, allow_repeat=True):
     """Advanced / boolean / mixed index into an array of ndim>=1."""
     nd = len(shape)
     kind = draw(st.sampled_from(["intarr", "intarr", "bool", "mixed", "list", "multi"]))
+    if int(np.prod(shape)) == 0:
+        return {"t": False, "c": [["s", None, None, None]]}, "basic"
     if kind == "bool":
         n = int(np.prod(shape))
         full = draw(st.booleans()) or nd == 1
@@ -444,7 +453,7 @@ def step_unary(b: Builder):
     elif name == "hard_tanh":
         lo = d(st.sampled_from([-1.0, -0.5, -2.0]))
         p = {"lo": lo, "hi": lo + d(st.sampled_from([1.0, 2.0, 3.5]))}
-    return b.op(name, [a], p, constant=draw_const_flag(b))
+    return b.op(name, [a], p, constant=draw_const_flag(b) if not name.startswith("op_") else None)
 
 
 def draw_const_flag(b):
@@ -539,7 +548,7 @@ def step_reduce(b: Builder):
 def step_view(b: Builder, names=None):
     d = b.draw
     name = d(st.sampled_from(names or VIEWS))
-    a = b.pick(b.float_handles(tensors_only=name in ("T",)))
+    a = b.pick(b.float_handles(tensors_only=(name in ("T",)) or b.views_tensors_only))
     if a is None:
         return None
     p = draw_view_params(d, name, b.shape(a))
@@ -618,6 +627,8 @@ def step_shape_nonview(b: Builder):
     if name == "where":
         cands = [h for h in b.float_handles() if bshape_ok(shp, b.shape(h), b.max_elems)]
         c = b.pick(cands)
+        if c is None:
+            return None
         out_shape = np.broadcast_shapes(shp, b.shape(c))
         n = int(np.prod(out_shape)) if len(out_shape) else 1
         cond = d(st.lists(st.booleans(), min_size=n, max_size=n))
@@ -657,6 +668,8 @@ def step_nary(b: Builder):
         for _ in range(k - 1):
             cands = [h for h in fl if bshape_ok(cur, b.shape(h), b.max_elems)]
             c = b.pick(cands)
+            if c is None:
+                break
             args.append(c)
             cur = np.broadcast_shapes(cur, b.shape(c))
         return b.op(name, args, None, constant=draw_const_flag(b))
@@ -705,7 +718,7 @@ def _einsum_step(b, a, fl):
     if mode == 1:
         # same-shape partner (possibly the same tensor object): elementwise / full contraction
         same = [h for h in fl if b.shape(h) == shp]
-        c = b.pick(same)
+        c = b.pick(same) or a
         out = d(st.sampled_from([letters, "", letters[0], letters[-1], letters[::-1]]))
         subs = f"{letters},{letters}->{out}"
         return b.op("einsum", [a, c], {"subs": subs, "optimize": d(st.booleans())})
@@ -757,7 +770,7 @@ def shape_variant(draw, base):
 
 
 @st.composite
-def functional_program(draw, max_ops=10, max_elems=24, allow_int=True, allow_const_flag=True,
+def functional_program(draw, max_ops=10, min_ops=1, max_elems=24, allow_int=True, allow_const_flag=True,
                        allow_const_view=True, dtypes=("float64",), leaf_kinds=None):
     b = Builder(draw, max_elems=max_elems, allow_int=allow_int)
     b.allow_const_flag = allow_const_flag
@@ -776,7 +789,7 @@ def functional_program(draw, max_ops=10, max_elems=24, allow_int=True, allow_con
         else:
             b.leaf(kind, shape, dtype=dt, order=order)
         have_var = have_var or kind == "var"
-    nops = draw(st.integers(1, max_ops))
+    nops = draw(st.integers(min_ops, max_ops))
     fns = [f for f, w in STEP_TABLE for _ in range(w)]
     made = 0
     attempts = 0
@@ -785,5 +798,188 @@ def functional_program(draw, max_ops=10, max_elems=24, allow_int=True, allow_con
         f = draw(st.sampled_from(fns))
         h = f(b)
         if h is not None:
+            made += 1
+    return b
+
+
+# ------------------------------------------------------------------------------- histories (in-place)
+
+OUT_UNARY = ["exp", "sin", "square", "negative", "tanh", "positive", "sqrt", "abs", "cos", "log", "reciprocal"]
+OUT_BINARY = ["add", "multiply", "subtract", "divide", "maximum", "minimum", "power"]
+AUG_OPS = ["add", "subtract", "multiply", "divide", "power"]
+
+
+def writable_targets(b: Builder):
+    out = []
+    for h, v in b.ref.env.items():
+        if not b.ref.is_tensor[h] or b.ref.isint[h]:
+            continue
+        if not v.flags.writeable:
+            continue
+        out.append(h)
+    return out
+
+
+def _value_for(b: Builder, shape, allow_handles=True, dom="any"):
+    """A handle whose value broadcasts to `shape` (existing handle, new array leaf, or scalar)."""
+    d = b.draw
+    mode = d(st.integers(0, 5))
+    if mode <= 2 and allow_handles:
+        cands = []
+        for h, v in b.ref.env.items():
+            if b.ref.isint[h]:
+                continue
+            try:
+                if np.broadcast_shapes(v.shape, tuple(shape)) == tuple(shape):
+                    cands.append(h)
+            except ValueError:
+                pass
+        if cands:
+            h = b.pick(cands)
+            if dom_ok(dom, b.val(h)):
+                return h
+    if mode == 3:
+        h = b.scalar_leaf()
+    else:
+        sub = list(shape)
+        k = d(st.integers(0, len(sub)))
+        sub = sub[k:]
+        sub = [1 if d(st.integers(0, 4)) == 0 else x for x in sub]
+        kind = d(st.sampled_from(["array", "var", "var", "const"]))
+        h = b.leaf(kind, sub)
+    if not dom_ok(dom, b.val(h)):
+        h2 = b.fix_domain(h, dom)
+        return h2
+    return h
+
+
+def step_setitem(b: Builder):
+    d = b.draw
+    t = b.pick(writable_targets(b))
+    if t is None:
+        return None
+    shp = b.shape(t)
+    nd = len(shp)
+    if nd == 0 or d(st.integers(0, 2)) == 0:
+        index = draw_basic_index(d, shp, allow_newaxis=nd > 0 and d(st.integers(0, 3)) == 0)
+        kind = "basic"
+    else:
+        index, kind = draw_adv_index(d, shp)
+    try:
+        sel_shape = b.val(t)[dec_index(index)].shape
+    except Exception:
+        return None
+    v = _value_for(b, sel_shape)
+    if v is None:
+        return None
+    s = {"k": "inplace", "kind": "setitem", "target": t, "args": [v], "p": {"index": index}}
+    if b.try_emit(s):
+        b.labels.add("setitem_" + kind)
+        return t
+    return None
+
+
+def step_aug(b: Builder):
+    d = b.draw
+    t = b.pick(writable_targets(b))
+    if t is None:
+        return None
+    name = d(st.sampled_from(AUG_OPS))
+    od = OPS[name]
+    if not dom_ok(od.dom[0], b.val(t)):
+        name = "add"
+        od = OPS[name]
+    v = _value_for(b, b.shape(t), dom=od.dom[1])
+    if v is None:
+        return None
+    s = {"k": "inplace", "kind": "aug", "op": name, "target": t, "args": [v]}
+    if b.try_emit(s):
+        return t
+    return None
+
+
+def step_out(b: Builder):
+    d = b.draw
+    t = b.pick(writable_targets(b))
+    if t is None:
+        return None
+    shp = b.shape(t)
+    unary = d(st.booleans())
+    name = d(st.sampled_from(OUT_UNARY if unary else OUT_BINARY))
+    od = OPS[name]
+    args = []
+    for i in range(1 if unary else 2):
+        # operands may include the target itself (e.g. np.exp(t, out=t))
+        if d(st.integers(0, 3)) == 0 and dom_ok(od.dom[i], b.val(t)):
+            args.append(t)
+            continue
+        v = _value_for(b, shp, dom=od.dom[i])
+        if v is None:
+            return None
+        args.append(v)
+    p = {}
+    if d(st.booleans()):
+        # where mask broadcastable to target shape
+        k = d(st.integers(0, len(shp)))
+        wshape = [1 if d(st.integers(0, 4)) == 0 else x for x in shp[k:]]
+        n = int(np.prod(wshape)) if wshape else 1
+        p["where"] = d(st.lists(st.booleans(), min_size=n, max_size=n))
+        p["wshape"] = wshape
+    if d(st.integers(0, 2)) == 0:
+        p["via"] = "np"
+    s = {"k": "inplace", "kind": "out", "op": name, "target": t, "args": args, "p": p}
+    if b.try_emit(s):
+        b.labels.add("out_where" if "where" in p else "out")
+        return t
+    return None
+
+
+def step_shape_assign(b: Builder):
+    d = b.draw
+    t = b.pick(writable_targets(b))
+    if t is None:
+        return None
+    new = d(st.sampled_from(_reshapes(b.shape(t))))
+    s = {"k": "inplace", "kind": "shape", "target": t, "p": {"shape": list(new)}}
+    if b.try_emit(s):
+        b.labels.add("shape_assign")
+        return t
+    return None
+
+
+def step_read(b: Builder):
+    f = b.draw(st.sampled_from([step_unary, step_binary, step_binary, step_reduce, step_shape_nonview]))
+    return f(b)
+
+
+HISTORY_STEPS = [
+    (step_view, 6),
+    (step_read, 5),
+    (step_setitem, 6),
+    (step_aug, 3),
+    (step_out, 3),
+    (step_shape_assign, 1),
+]
+
+
+@st.composite
+def history_program(draw, max_steps=14, max_elems=16, with_shape_assign=True):
+    b = Builder(draw, max_elems=max_elems, allow_int=False)
+    b.views_tensors_only = True
+    nleaves = draw(st.integers(1, 3))
+    for i in range(nleaves):
+        kind = "var" if i == 0 else draw(st.sampled_from(["var", "var", "const", "array"]))
+        shape = draw_shape(draw, max_ndim=3, max_side=4, cap=max_elems)
+        if i == 0 and not shape:
+            shape = [draw(st.integers(2, 5))]
+        b.leaf(kind, shape)
+    nsteps = draw(st.integers(2, max_steps))
+    fns = [f for f, w in HISTORY_STEPS for _ in range(w) if with_shape_assign or f is not step_shape_assign]
+    made = 0
+    attempts = 0
+    while made < nsteps and attempts < nsteps * 3:
+        attempts += 1
+        f = draw(st.sampled_from(fns))
+        if f(b) is not None:
             made += 1
     return b
